@@ -8,6 +8,11 @@ CLAIMED = {
    note="Trusted: spec.rs (request table and layouts transcribed from the vhost-user specification), the protocol model in props/c04.rs. Stated tolerances: the SET_PROTOCOL_FEATURES that flips REPLY_ACK may or may not be acked; requests rejected before the handler may produce nothing or one non-zero ack; SET_LOG_BASE reply payload and the 4 padding bytes of the inflight description are spec-silent.",
    technique="model-based (stateful) property testing: bounded-exhaustive + proptest histories vs. reference protocol model",
    ref="DESIGN.md section 3, C04"),
+ "C11": dict(level="exploration",
+   text="Model-based testing of a real VhostUserDaemon: every word up to depth 4 (quick) / 5 (thorough) over the 11-symbol one-ring alphabet (containing a kick) is executed on a fresh daemon, alternating Mutex- and RwLock-backed rings, plus random 2-ring histories up to 20 steps; after every step a double barrier on the worker makes 'no dispatch' observable without sleeping and per-ring handler invocations are compared with a reference ring model (started/enabled/pending). Histories are unbounded, so bounded-exhaustive + random exploration is what is claimed.",
+   note="Trusted: the ring model in props/c11.rs, the double-barrier argument (epoll batch semantics), the raw spec-encoding client. Kicks are raised on the current descriptor and on stale descriptors the front end still holds; fatal-by-protocol steps are skipped; an extra handler call for an active ring without a kick is only counted.",
+   technique="model-based (stateful) property testing with bounded-exhaustive + proptest histories vs. reference ring model, double-barrier observation",
+   ref="DESIGN.md section 3, C11"),
  "C20": dict(level="exploration",
    text="Exhaustive enumeration of a boundary lattice per message type (about 9.5 million bit patterns, complete for the lattice) plus random 64-bit patterns, each judged in both directions against an independent predicate written from the property text in u128 arithmetic. Validators are pure functions of a few integer fields whose rules only have boundaries at the lattice points, so lattice-exhaustive + random search is the right level; it is not a proof over all 2^k patterns.",
    note="Trusted: refpred.rs (hand-written from the property/spec), the verif-hooks accessors that expose the private header validators. Bit patterns the rules leave open (range ending exactly at 2^64, padding word of the single-region body, inflight mmap_size==0) are accepted either way and counted as spec_silent.",
